@@ -32,6 +32,8 @@ inductive Ty where
   | macro (toks : List String)
 inductive Seg where
   | mk (ident : String) (args : List GArg)
+  /-- `Fn(A, B) -> C`: parenthesized path arguments -/
+  | fn (ident : String) (args : List Ty) (ret : Option Ty)
 inductive GArg where
   | ty (t : Ty)
   | lt (s : String)
@@ -82,6 +84,7 @@ def Ty.toksComma : List Ty → Toks
 def Seg.toks : Seg → Toks
   | .mk i [] => [i]
   | .mk i (a :: as) => i :: "<" :: GArg.toksComma (a :: as) ++ [">"]
+  | .fn i args ret => i :: "(" :: Ty.toksComma args ++ ")" :: Ty.toksRet ret
 /-- `a :: b :: c` -/
 def Seg.toksL : List Seg → Toks
   | [] => []
@@ -136,6 +139,7 @@ def Ty.expandSelfL (to : Ty) : List Ty → List Ty
 
 def Seg.expandSelf (to : Ty) : Seg → Seg
   | .mk i args => .mk i (GArg.expandSelfL to args)
+  | .fn i args ret => .fn i (Ty.expandSelfL to args) (Ty.expandSelfO to ret)
 
 def Seg.expandSelfL (to : Ty) : List Seg → List Seg
   | [] => []
@@ -157,7 +161,7 @@ without a leading `::`, has a (type or const) parameter as its first segment.
 `ps` holds the *unrawed* parameter names. -/
 
 def headIn (ps : List String) (g : Bool) (segs : List Seg) : Bool :=
-  !g && (match segs with | (.mk i _) :: _ => ps.contains (unraw i) | [] => false)
+  !g && (match segs with | (.mk i _) :: _ => ps.contains (unraw i) | (.fn i _ _) :: _ => ps.contains (unraw i) | [] => false)
 
 mutual
 def Ty.mentions (ps : List String) : Ty → Bool
@@ -182,6 +186,7 @@ def Ty.mentionsL (ps : List String) : List Ty → Bool
   | t :: ts => t.mentions ps || Ty.mentionsL ps ts
 def Seg.mentions (ps : List String) : Seg → Bool
   | .mk _ args => GArg.mentionsL ps args
+  | .fn _ args ret => Ty.mentionsL ps args || Ty.mentionsO ps ret
 def Seg.mentionsL (ps : List String) : List Seg → Bool
   | [] => false
   | s :: ss => s.mentions ps || Seg.mentionsL ps ss
